@@ -182,6 +182,11 @@ def impl(line: str) -> str:
         return "ok " + ("True" if node.is_valid else "False")
     if op == "script":
         return _script(from_tokens(t[1], t[3:]))
+    if op == "bounds":
+        n = from_tokens(t[1], t[2:])
+        b = lambda x: "True" if x else "False"  # noqa: E731
+        return (f"ok ops={n.max_ops} stack={n.max_stack_items} exec={n.max_exec_stack_items} wit={n.max_witness_size} "
+                f"limits={b(n.is_within_resource_limits)} sane={b(n.is_sane)} dup={b(n.has_duplicate_keys)}")
     if op == "str":
         return "ok " + str(from_tokens(t[1], t[2:]))
     if op == "exec":
@@ -441,12 +446,13 @@ def run(ctx):
         ctx.count("context", n.context)
         for f, k in G.histogram(n).items():
             ctx.count("fragment", f, k)
-    lines = {"type": [], "size": [], "valid": [], "script": [], "str": [], "parse": []}
+    lines = {"type": [], "size": [], "valid": [], "bounds": [], "script": [], "str": [], "parse": []}
     for n in nodes:
         tk = " ".join(tokens(n))
         lines["type"].append(f"type {n.context} {tk}")
         lines["size"].append(f"size {n.context} {tk}")
         lines["valid"].append(f"valid {n.context} {tk}")
+        lines["bounds"].append(f"bounds {n.context} {tk}")
         lines["script"].append(f"script {n.context} {table(n)} {tk}")
         lines["str"].append(f"str {n.context} {tk}")
         text = str(n)
@@ -458,7 +464,7 @@ def run(ctx):
         lines["parse"].append(f"parse {n.context} {hx(text.encode())}")
         for _ in range(2):
             lines["parse"].append(f"parse {n.context} {hx(mutate_text(rng, text).encode())}")
-    typed = {f"{op} {n.context} " + " ".join(tokens(n)) for n in nodes if n.properties for op in ("type", "size", "valid")}
+    typed = {f"{op} {n.context} " + " ".join(tokens(n)) for n in nodes if n.properties for op in ("type", "size", "valid", "bounds")}
     for op, ls in lines.items():
         ctx.stream(op, ls, nontrivial=(lambda line, out: not out.startswith("err") and (line in typed or line.startswith("script"))))
     ctx.stream("pushnum", [f"pushnum {i}" for i in sorted({abs(v) % 2**31 for v in common.boundary_ints(rng)} |
@@ -508,7 +514,7 @@ def run(ctx):
     ctx.note("T3/T4 are partial: covered_constructors = 0, 1, pk_k, c:, v:, a:, n:, and_v, and_b, or_b, or_c, or_d, "
              "or_i, andor (Props.C15.type_soundness_partial / satisfaction_accepted_partial); not covered: s: d: j: pk_h "
              "older after sha256 hash256 ripemd160 hash160 multi multi_a thresh, the satisfier's choice and "
-             "the static bounds (those are checked on the real engine by the `spend` oracle only)")
+             "the soundness of the static bounds (bounds tables: `bounds` stream; actual spends: `spend` oracle)")
     ctx.note(f"spend oracle: {produced} satisfactions produced and run through the real engine (p2wsh and tapscript)")
     for n in nodes:
         w = {"context": n.context, "tokens": " ".join(tokens(n))}
